@@ -54,7 +54,12 @@ def run_config(run, exe, spec, name, conf, consts, prop, workers=3, env=None, ca
         g, info = tlcgraph.run_tlc_graph(tla, cfg, workers=workers, cwd=MC, timeout=3000, simulate=(150, 800), sim_seed=seed())
     if not info["ok"] and not info["violated"]:
         raise ToolFailure("TLC failed on %s/%s: %s" % (spec, name, "\n".join(info["log"][-40:])))
-    tours = tlcgraph.build_tours(g, cap_tours=cap_tours)
+    # every transition is replayed once, up to a bound on the number of behaviours (the largest thorough-tier graphs would otherwise
+    # take hours to replay); a capped configuration is recorded as such
+    maxt = cap_tours or int(os.environ.get("VERIF_MAX_TOURS", "60000"))
+    tours = tlcgraph.build_tours(g, cap_tours=maxt)
+    if len(tours) >= maxt:
+        run.cov.setdefault("tours_capped", []).append({"config": name, "tours": len(tours), "transitions": len(g.edges)})
     sched = os.path.join(WORK, "tlc", "l2_%s_%s.sched" % (spec, name))
     init = init_line(spec.lower(), conf)
     steps = tlcgraph.write_schedule(sched, g, tours, init, obs_fmt=tlcgraph.fmt_obs_noghost)
